@@ -47,6 +47,10 @@ fn scenes(m: Method, backward: bool) -> Vec<Scene> {
             // does not divide the interval: the last step is shortened to land on xend
             c.first_step = Some(xend / 7.3);
         }
+        // horizon: the longest history of the unchanged tree has 63 callbacks; a run that does not come to an
+        // end (e.g. one stepping away from xend) is cut off here and reported through its status
+        c.max_steps = Some(3000);
+        c.budget = 400_000;
         Scene { prob: p, cfg: c, exact_doubling: exact }
     };
     v.push(mk(lin2(), 1.0, 1e-5, 0.0, true));
@@ -55,6 +59,13 @@ fn scenes(m: Method, backward: bool) -> Vec<Scene> {
     // the same oscillator in units of 1e-14 (span 1.5e-14): nothing in the protocol may depend on an
     // absolute time scale
     v.push(mk(crate::problems::timescale(&base(Base::Harmonic(2.0)), 1e14), 1.5e-14, 1e-5, 1e-8, false));
+    // the stiffness test on every accepted step (builder option stiff_test = 1; the default runs it on every
+    // thousandth): whatever it computes must leave the step's results and interpolant alone
+    if m == Method::DOPRI5 || m == Method::DOP853 {
+        let mut sc = mk(base(Base::Harmonic(2.0)), 1.5, 1e-5, 1e-8, false);
+        sc.cfg.stiff_test = Some(1);
+        v.push(sc);
+    }
     // dense output switched off at the builder: the same protocol without the interpolant
     if m != Method::BDF {
         let mut sc = mk(base(Base::Harmonic(2.0)), 1.5, 1e-5, 1e-8, false);
@@ -64,6 +75,8 @@ fn scenes(m: Method, backward: bool) -> Vec<Scene> {
     v
 }
 
+/// bound of the midpoint clause in units of atol + rtol |y| (measured on the tree: see DESIGN 7.3)
+const MID_K: f64 = 20.0;
 const ALTS: [Ans; 3] = [Ans::Interrupt, Ans::Modified(1.0), Ans::Modified(2.0)];
 
 fn one_step_method(m: Method) -> bool {
@@ -142,6 +155,22 @@ fn check_run(key: &str, m: Method, sc: &Scene, script: &[(usize, Ans)], base_run
         let dr = q.at_x.iter().zip(&q.y).fold(0.0f64, |a, (u, v)| a.max((u - v).abs()));
         if dl > tol || dr > tol || !dl.is_finite() || !dr.is_finite() {
             viol!("interpolant-endpoints", format!("callback {}: interpolant(xold) off by {:e}, interpolant(x) off by {:e} (tolerance {:e})", j, dl, dr, tol));
+        }
+        // the interpolant is valid inside the interval: at the midpoint it follows the exact flow from the state
+        // the step started from, to within a modest multiple of the tolerance (error-controlled one-step methods; measured: at most 2)
+        if one_step_method(m) && m != Method::RK4 {
+            let xm = q.xold + 0.5 * (q.x - q.xold);
+            if let Some(ex) = sc.prob.exact(q.xold, &written[j - 1], xm) {
+                let tolv = |i: usize| c.atol.at(i) + c.rtol.at(i) * ex[i].abs().max(q.y[i].abs());
+                let worst = (0..n).map(|i| (q.at_mid[i] - ex[i]).abs() / tolv(i).max(1e-300)).fold(0.0f64, f64::max);
+                if std::env::var("VERIF_DEBUG").is_ok() && worst > 1.0 {
+                    println!("DBG c19 mid {} {} cb {} ratio {:.2}", mname(m), sc.prob.name, j, worst);
+                }
+                if !(worst <= MID_K) {
+                    viol!("interpolant-midpoint", format!("callback {}: interpolant(midpoint) = {:?}, the exact flow from the step's start gives {:?} ({}x the tolerance)", j, q.at_mid, ex, worst));
+                }
+                out.validated += 1;
+            }
         }
         let (lo, hi) = (q.xold.min(q.x), q.xold.max(q.x));
         let sl = time_slack(c.x0, c.xend, q.x, recs.len());
@@ -289,11 +318,15 @@ fn explore(keybase: &str, m: Method, sc: &Scene, base_run: &LowRun, prefix: Vec<
     let run_it = only.map(|o| o == key).unwrap_or(true);
     let ck = check_run(&key, m, sc, &prefix, Some(base_run));
     let nc = ck.ncallbacks;
+    let violated = !ck.out.violations.is_empty();
     if run_it {
         outs.push(ck.out);
     }
     if prefix.len() >= d {
         return;
+    }
+    if violated && only.is_none() {
+        return; // the counterexample with the fewest deviations is the one reported: nothing is explored below it
     }
     if prefix.iter().any(|(_, a)| *a == Ans::Interrupt) {
         return; // the run has ended: no later decision point exists
@@ -321,6 +354,35 @@ pub fn run_check(replay: Option<Value>) -> i32 {
             }
         }
     }
+    // a replay names its history: run exactly that one
+    if let Some(key) = &only {
+        let parts: Vec<&str> = key.split(':').collect();
+        let ids: Vec<usize> = parts.get(1).map(|p| p.split('.').filter_map(|x| x.parse().ok()).collect()).unwrap_or_default();
+        if parts.len() >= 2 && ids.len() == 3 && ids[0] < M6.len() && ids[2] < scenes(M6[ids[0]], ids[1] == 1).len() {
+            let m = M6[ids[0]];
+            let sc = scenes(m, ids[1] == 1).remove(ids[2]);
+            let mut prefix: Vec<(usize, Ans)> = vec![];
+            for tok in parts.get(2).unwrap_or(&"").split('.').filter(|t| !t.is_empty()) {
+                let (num, letter) = tok.split_at(tok.len() - 1);
+                let a = match letter {
+                    "I" => Ans::Interrupt,
+                    "M" => Ans::Modified(1.0),
+                    "D" => Ans::Modified(2.0),
+                    _ => Ans::Continue,
+                };
+                prefix.push((num.parse().unwrap_or(0), a));
+            }
+            let base_run = run_lowlevel(&sc.prob, &sc.cfg, &[], &[], None, false);
+            let ck = check_run(key, m, &sc, &prefix, Some(&base_run));
+            for v in &ck.out.violations {
+                println!("replay: VIOLATED [{}]: {}\n{}", v.sig["check"], v.msg, serde_json::to_string_pretty(&v.case).unwrap());
+            }
+            if ck.out.violations.is_empty() {
+                println!("replay: property holds on this case");
+            }
+            return if ck.out.violations.is_empty() { 0 } else { 1 };
+        }
+    }
     // one job = one (method, direction, problem): baseline + the whole deviation tree below it,
     // first-level branches in parallel
     let mut groups = vec![];
@@ -338,10 +400,15 @@ pub fn run_check(replay: Option<Value>) -> i32 {
         // depth-0 case
         let mut outs0 = vec![];
         let key0 = format!("{}:", keybase);
+        let ck0 = check_run(&key0, m, &sc, &[], Some(&base_run));
+        let base_violated = !ck0.out.violations.is_empty();
         if only.as_deref().map(|o| o == key0).unwrap_or(true) {
-            outs0.push(check_run(&key0, m, &sc, &[], Some(&base_run)).out);
+            outs0.push(ck0.out);
         }
         rep.absorb(outs0);
+        if base_violated && only.is_none() {
+            continue; // the all-Continue history already violates the protocol: no deviation tree below it
+        }
         let firsts: Vec<(usize, Ans)> = (0..nc).flat_map(|i| ALTS.iter().map(move |a| (i, *a))).collect();
         let res = par_map(firsts.len(), |j| {
             let mut outs = vec![];
